@@ -1,3 +1,10 @@
 //! Safe-Rust verification hooks for this module (accessors/wrappers only; no logic).
 #![allow(unused_imports, dead_code)]
 use super::*;
+
+// ---- C26/C27 (np_keyset_h): name the AEAD types from outside the private module so that
+// `#[kani::stub(<…::AesSivCmac512 as …::Cipher>::encrypt, …)]` can resolve them.
+pub use super::{AesSivCmac256, AesSivCmac512, Cipher, DecryptError, EncryptResult, KeyError};
+
+// ---- C23/C25 (np_packet_h): name the provider result type from outside the private module.
+pub use super::CipherHolder;
